@@ -202,6 +202,8 @@ func (req *Request) Read(b *bufio.Reader) error {
 		if length > int(config.MCConf.BodyBig) {
 			if cmem.DBRL.FlushData.Size > int64(config.MCConf.FlushMax) {
 				logger.Warnf("ErrOOM key %s, size %d", req.Keys[0], length)
+				// the data block belongs to the refused command: swallow it
+				b.Discard(length + 2)
 				return ErrOOM
 			}
 		}
